@@ -14,9 +14,9 @@ using ascon::byte_array;
 static volatile int asan_hit;
 extern "C" void __asan_on_error(void) { asan_hit = 1; }
 
-enum { O_CONS, O_ASSIGN, O_COPYCONS, O_WRITE, O_HOLDREF, O_RESIZE, O_RESERVE, O_PUSH, O_POP, O_CLEAR, O_DATAW, O_ITER, O_READ };
+enum { O_CONS, O_ASSIGN, O_COPYCONS, O_WRITE, O_HOLDREF, O_RESIZE, O_RESERVE, O_PUSH, O_POP, O_CLEAR, O_DATAW, O_ITER, O_READ, O_ENDFIRST, O_BEGINW };
 struct op { unsigned char k, x, y; unsigned short n; };
-static const char *opn[] = {"construct", "assign", "copy-construct", "index-write", "hold-ref-across-index", "resize", "reserve", "push_back", "pop_back", "clear", "data-write", "iterate", "index-read"};
+static const char *opn[] = {"construct", "assign", "copy-construct", "index-write", "hold-ref-across-index", "resize", "reserve", "push_back", "pop_back", "clear", "data-write", "iterate", "index-read", "end-before-begin", "write-through-begin"};
 static int NV;
 
 struct world { byte_array a[3]; vec m[3]; };
@@ -28,11 +28,11 @@ static bool applicable(const op &o, const world &w)
     case O_WRITE: case O_READ: return o.n == 0 ? sz > 0 : sz > 1;   /* n=0: first element, n=1: last element */
     case O_HOLDREF: return sz >= 2;
     case O_POP: return sz > 0;             /* pop_back on an empty std::vector is undefined */
-    case O_DATAW: return sz > 0;
+    case O_DATAW: case O_BEGINW: return sz > 0;
     default: return true;
     }
 }
-static long itersum;
+static long itersum; static int iterbad;
 static void apply(world &w, const op &o)
 {
     byte_array &a = w.a[o.x]; vec &m = w.m[o.x];
@@ -49,8 +49,13 @@ static void apply(world &w, const op &o)
     case O_POP: a.pop_back(); m.pop_back(); break;
     case O_CLEAR: a.clear(); m.clear(); break;
     case O_DATAW: a.data()[0] = 11; m.data()[0] = 11; break;
+    case O_ENDFIRST: {  /* end() taken before begin(): both must delimit this value's own elements, and a write through end()-1 must change this value only */
+                   byte_array::iterator e = a.end(); byte_array::iterator b = a.begin(); if ((size_t)(e - b) != m.size()) iterbad |= 2;
+                   const byte_array &ca = a; if ((size_t)(ca.end() - ca.begin()) != m.size() || ca.begin() != ca.cbegin() || ca.end() != ca.cend()) iterbad |= 2;
+                   if (m.size()) { *(e - 1) = 13; m.back() = 13; } break; }
+    case O_BEGINW: { *a.begin() = 12; *m.begin() = 12; break; }
     case O_ITER: { long s1 = 0, s2 = 0; for (byte_array::iterator it = a.begin(); it != a.end(); ++it) s1 += *it; for (vec::iterator it = m.begin(); it != m.end(); ++it) s2 += *it;
-                   const byte_array &ca = a; for (byte_array::const_iterator it = ca.cbegin(); it != ca.cend(); ++it) s1 -= *it; itersum += s1 - s2 + s2; if (s1 != 0) itersum = -1; break; }
+                   const byte_array &ca = a; for (byte_array::const_iterator it = ca.cbegin(); it != ca.cend(); ++it) s1 -= *it; itersum += s1 - s2 + s2; if (s1 != 0) iterbad |= 1; break; }
     }
 }
 static std::string describe(const std::vector<op> &h)
@@ -113,6 +118,7 @@ int main(int argc, char **argv)
         for (int i = 0; i < 3; i++) alphabet.push_back(op{O_RESERVE, (unsigned char)x, 0, (unsigned short)rv_n[i]});
         alphabet.push_back(op{O_PUSH, (unsigned char)x, 0, 0}); alphabet.push_back(op{O_POP, (unsigned char)x, 0, 0}); alphabet.push_back(op{O_CLEAR, (unsigned char)x, 0, 0});
         alphabet.push_back(op{O_DATAW, (unsigned char)x, 0, 0}); alphabet.push_back(op{O_ITER, (unsigned char)x, 0, 0});
+        alphabet.push_back(op{O_ENDFIRST, (unsigned char)x, 0, 0}); alphabet.push_back(op{O_BEGINW, (unsigned char)x, 0, 0});
     }
     std::set<std::string> seen; std::deque<std::vector<op> > frontier;
     { world w; seen.insert(canon(w)); frontier.push_back(std::vector<op>()); }
@@ -136,7 +142,8 @@ int main(int argc, char **argv)
             if (seen.insert(k).second) { lasth = nh; if (nh.size() < (size_t)depth) frontier.push_back(nh); }
         }
     }
-    if (itersum == -1) hx_fail("byte_array:semantics:iterate", "iterator and const_iterator sums disagree");
+    if (iterbad & 2) hx_fail("byte_array:semantics:iterate", "end() - begin() is not size(), or the const iterators disagree");
+    if (iterbad & 1) hx_fail("byte_array:semantics:iterate", "iterator and const_iterator sums disagree");
     hx_stat("states", (long long)seen.size()); hx_stat("transitions", transitions); hx_stat("traces_validated", transitions);
     printf("SETMAX max_depth %zu\n", maxd + 1);
     hx_sample("byte_array vs std::vector: %d values, alphabet of %zu operations, BFS to depth %d: %zu states, %ld transitions", NV, alphabet.size(), depth, seen.size(), transitions);
